@@ -18,7 +18,7 @@ def main():
     checks = sys.argv[4:] or [prop]
     tier = os.environ.get("EVAL_TIER", "quick")
     at = os.environ.get("EVAL_VERIF_AT")          # evaluate with /verif as it was at this commit
-    run_dir = VERIF
+    run_dir = os.environ.get("EVAL_RUN_DIR", VERIF)      # a frozen copy of /verif to run the checks from (results are filed normally)
     if at:
         run_dir = "/var/tmp/verif-at-%s" % at
         if not os.path.isdir(run_dir):
@@ -26,6 +26,7 @@ def main():
     wt = "/var/tmp/penne-ev-%d" % os.getpid()
     bd = wt + ".build"
     meta = {"id": sid, "property": prop, "source": "independent sub-agent (given only the property text and a scratch worktree)",
+            "checks_run_from": sh("git -C %s rev-parse --short HEAD" % run_dir).stdout.strip(),
             "evaluated_at_repo_commit": sh("git -C /repo rev-parse --short %s" % os.environ.get("EVAL_REPO_AT", "HEAD")).stdout.strip(),
             "verif_commit": sh("git -C %s rev-parse --short HEAD" % VERIF).stdout.strip()}
     try:
@@ -33,7 +34,7 @@ def main():
         patch = os.path.join(src, "patch.diff")
         r = sh("git -C %s apply %s" % (wt, patch))
         rebased = os.path.join(VERIF, "seeded", sid, "patch.rebased.diff")
-        if r.returncode != 0 and os.path.exists(rebased) and not os.environ.get("EVAL_REPO_AT"):
+        if r.returncode != 0 and os.path.exists(rebased):
             # the same change re-expressed against the current /repo (later fix: commits touched its context)
             r = sh("git -C %s apply %s" % (wt, rebased))
             meta["applied_rebased_patch"] = r.returncode == 0
